@@ -177,6 +177,8 @@ def rust_type(t, lt, gname=None):
     if k == "string":
         return "String"
     if k == "opt":
+        if t[2] == "(":            # a parenthesised type is the same type: `(Option<u32>)`
+            return "(Option<%s>)" % rust_type(t[1], lt, gname)
         return "%sOption<%s>" % (t[2], rust_type(t[1], lt, gname))
     if k == "slice":
         return "%s[%s]" % (amp, rust_type(t[1], lt, gname))
@@ -431,6 +433,8 @@ def corpus_fixed():
         M("list_all", [P("a", u32o), P("b", stro, "B")],
           [[["none"], ["none"]], [["some", ["n", "1"]], ["some", ["s", "x"]]]]),
         M("watch_2_things", [P("kind", ["str"])], [[["s", "k"]]], more=True),
+        M("paren_opt", [P("a", ["opt", ["u32"], "("]), P("b", ["opt", ["str"], "("], "B")],
+          [[["none"], ["none"]], [["some", ["n", "1"]], ["none"]], [["none"], ["some", ["s", "x"]]]]),
         M("get_url", [P("id", ["u64"])], [[["n", "18446744073709551615"]]], rename="GetURL", out="outb"),
         M("pair_up", [P("left", ["str"], "l"), P("right", ["opt", ["slice", ["str"]], ""])],
           [[["s", "x"], ["none"]], [["s", "x"], ["some", ["arr", [["s", "p"], ["s", "q"]]]]]],
